@@ -41,6 +41,7 @@ import PyhamModel.Lemmas.Locality
 import PyhamModel.Lemmas.OmaLemmas
 import PyhamModel.Lemmas.Listing
 import PyhamModel.Lemmas.Corollaries
+import PyhamModel.Lemmas.SameHierarchy
 namespace Pyham.Props
 open Pyham
 
@@ -397,6 +398,28 @@ theorem C13_analyses_naming (H1 H2 : Ham) (ht : H1.tree = H2.tree) (h1 : H1.tops
 theorem C14_spelling_iff (q : Taxon) (l l' : SL) (n : Node) (h : SameL l l') :
     Realises q l n ↔ Realises q l' n :=
   Pyham.C14_spelling_iff q l l' n h
+
+/-- **the history determines the hierarchy**: two hierarchies that realise spellings of one history (with distinct
+    object identities) read back -- through `spell`, the reading the iHam exporter uses -- to the same history up to
+    spelling; i.e. they are the same hierarchy up to sibling order, object numbering and annotations -/
+theorem C14_same_history_same_hierarchy (T : STree) (q : Taxon) (l l' : SL) (n n' : Node) (hs : SameL l l')
+    (hw : wfh T q l = true) (hw' : wfh T q l' = true) (hr : Realises q l n) (hr' : Realises q l' n')
+    (hk : (n.nodes.map Node.key).Nodup) (hk' : (n'.nodes.map Node.key).Nodup) :
+    SameL (spell false false n) (spell false false n') :=
+  realises_unique_spellings T q l l' n n' hs hw hw' hr hr' hk hk'
+
+/-- **C13 / C14 for whole files**: two consistent datasets over one species tree whose families are spellings of
+    the same histories -- members and species blocks in any order, other group ids, with or without TaxRange labels,
+    levels elided or spelled out, EITHER naming mode -- load into the same hierarchies, family by family -/
+theorem C14_same_histories_same_hierarchies (D D' : Dataset) (hc : D.Consistent) (hc' : D'.Consistent)
+    (hT : D.T = D'.T) (hlen : D.fams.length = D'.fams.length)
+    (hs : ∀ i (h1 : i < D.fams.length) (h2 : i < D'.fams.length),
+        (D.fams[i]).1 = (D'.fams[i]).1 ∧ SameL (D.fams[i]).2 (D'.fams[i]).2) :
+    ∃ H H', load D.T D.nm D.file = .ok H ∧ load D'.T D'.nm D'.file = .ok H' ∧
+      H.tops.length = H'.tops.length ∧
+      ∀ i (h1 : i < H.tops.length) (h2 : i < H'.tops.length),
+        SameL (spell false false (H.tops[i]).2) (spell false false (H'.tops[i]).2) :=
+  same_histories_same_hierarchies D D' hc hc' hT hlen hs
 
 /-- **nested vs flat paralogGroups** (a multi-copy duplication written as directly nested paralogGroups or as
     one flat paralogGroup): if the flattened spelling of a file loads, the nested spelling loads to the SAME
